@@ -80,6 +80,9 @@ def check_matrix(acc, X, alph_name):
         except core.CaseTimeout:
             acc.violation("timeout", case, "evaluate did not return", key)
             continue
+        except Exception as e:  # wrong output shape, unexpected exception type, ...
+            acc.violation("cost-shape-or-exception", case, f"{V.name} on a {n}x{p} matrix: {type(e).__name__}: {e}", dict(key, exc=type(e).__name__))
+            continue
         if nontriv:
             acc.nt()
     acc.sample({"x": [list(r) for r in X]}, limit=2)
@@ -172,6 +175,10 @@ def one_variant(acc, case, key, V, Xf, rows, n, p):
     # (ii)/(iii) full batches both orders (over intervals that evaluate alone, and over all)
     for batch, where in ((clean, "all increasing"), (clean[::-1], "all decreasing"), (ivs, "all incl. non-PD")):
         if batch and not batch_check(batch, where):
+            return False
+    # (iii') sandwich batches [a, everything, a]: first and last row equal, different rows in between
+    for a in {clean[0], clean[len(clean) // 2], clean[-1]} if clean else ():
+        if not batch_check([a] + clean + [a], "sandwich"):
             return False
     # (iv) ordered pairs
     pairs = itertools.permutations(clean, 2) if n <= 4 else zip(clean, clean[1:] + clean[:1])
